@@ -615,6 +615,8 @@ def minimise(item, sig, wd, budget_s=40, to_ms=5000):
             if isinstance(node, list) and len(p) > 1:
                 done = False
                 for ch in node:
+                    if time.time() - t0 > budget_s:
+                        break
                     cur[p[-1]] = ch
                     if fails(cand):
                         tops = copy.deepcopy(cand)
